@@ -402,3 +402,33 @@ func TestQuantile(t *testing.T) {
 		checkQuantile.Run(rt, c)
 	})
 }
+
+// FuzzQuantile is the native coverage-guided front end (thorough tier). Orderings matter to
+// a selection or sorting algorithm in ways no value distribution reaches (bad pivots, fallback
+// paths taken only after several unbalanced partitions); the fuzzer's bucketed edge counters
+// give it a gradient toward such orderings. The data are a sequence of small integers (ties
+// included) in the order the bytes dictate; the oracle is the same type-8 definition.
+func FuzzQuantile(f *testing.F) {
+	f.Add(make([]byte, 128))
+	seq := make([]byte, 200)
+	for i := range seq {
+		seq[i] = byte(i * 37)
+	}
+	f.Add(seq)
+	f.Fuzz(rapid.MakeFuzz(func(rt *rapid.T) {
+		n := rapid.IntRange(1, 96).Draw(rt, "n")
+		c := &Case{Xs: make([]float64, n)}
+		for i := range c.Xs {
+			c.Xs[i] = float64(rapid.IntRange(0, 127).Draw(rt, "x"))
+		}
+		c.Perm = make([]int, n)
+		for i := range c.Perm {
+			c.Perm[i] = n - 1 - i
+		}
+		for _, q := range []float64{0.5, 0.25, 0.75, 0.1, 0.9} {
+			c.Qs = append(c.Qs, ev.F(q))
+		}
+		c.Qs = append(c.Qs, ev.F(rapid.Float64Range(0, 1).Draw(rt, "q")))
+		checkQuantile.Run(rt, c)
+	}))
+}
